@@ -35,6 +35,7 @@ CONSTANTS
   Calls,     \* sequence of call records: the argument lattice of the configuration
   InitCalls, \* sequence of indices into Calls applied before exploration starts
   PhaseMod,  \* phase units in 2*pi (0 = no wrap in this configuration)
+  PhaseTol,  \* tolerance (phase units) of the declarative phase predicates (0 = exact)
   MaxDepth   \* bound on the number of explored calls after InitCalls
 
 VARIABLES s, hist, viol
@@ -682,9 +683,8 @@ AddDmm(st, nm, p, proto) ==
 MagField(st, zero) ==
   IF st.mode # "xy" /\ Len(st.ch) > 0 THEN Err(st, "VE")
   ELSE IF st.mode = "xy" /\ ~st.empty THEN Err(st, "VE")
-  ELSE LET st1 == [st EXCEPT !.mode = "xy"] IN      \* switched BEFORE the zero-norm check
-       IF zero THEN Err(st1, "VE")
-       ELSE Ok([st1 EXCEPT !.lg = Append(@, "set_magnetic_field")])
+  ELSE IF zero THEN Err(st, "VE")
+  ELSE Ok([st EXCEPT !.mode = "xy", !.lg = Append(@, "set_magnetic_field")])
 
 (* Sequence.declare_channel; it = initial target mask, 0 = None *)
 Declare(st, nm, cid, it) ==
